@@ -31,6 +31,14 @@
 #[path = "gen/e_ll_s_parser.rs"] mod e_ll_s_parser;
 #[path = "gen/e_lr_s_grammar_trait.rs"] mod e_lr_s_grammar_trait;
 #[path = "gen/e_lr_s_parser.rs"] mod e_lr_s_parser;
+#[path = "gen/e_ll_ts_grammar_trait.rs"] mod e_ll_ts_grammar_trait;
+#[path = "gen/e_ll_ts_parser.rs"] mod e_ll_ts_parser;
+#[path = "gen/e_lr_ts_grammar_trait.rs"] mod e_lr_ts_grammar_trait;
+#[path = "gen/e_lr_ts_parser.rs"] mod e_lr_ts_parser;
+#[path = "gen/e_ll_z_grammar_trait.rs"] mod e_ll_z_grammar_trait;
+#[path = "gen/e_ll_z_parser.rs"] mod e_ll_z_parser;
+#[path = "gen/e_lr_z_grammar_trait.rs"] mod e_lr_z_grammar_trait;
+#[path = "gen/e_lr_z_parser.rs"] mod e_lr_z_parser;
 
 use parol_runtime::{ParolError, Token, parser::parse_tree_type::TreeConstruct};
 
@@ -100,19 +108,25 @@ user_grammar2!(e_ll_d_grammar, ELlDGrammar, ELlDGrammarTrait, e_ll_d_grammar_tra
 user_grammar2!(e_lr_d_grammar, ELrDGrammar, ELrDGrammarTrait, e_lr_d_grammar_trait);
 user_grammar2!(e_ll_s_grammar, ELlSGrammar, ELlSGrammarTrait, e_ll_s_grammar_trait);
 user_grammar2!(e_lr_s_grammar, ELrSGrammar, ELrSGrammarTrait, e_lr_s_grammar_trait);
+user_grammar2!(e_ll_ts_grammar, ELlTsGrammar, ELlTsGrammarTrait, e_ll_ts_grammar_trait);
+user_grammar2!(e_lr_ts_grammar, ELrTsGrammar, ELrTsGrammarTrait, e_lr_ts_grammar_trait);
+user_grammar2!(e_ll_z_grammar, ELlZGrammar, ELlZGrammarTrait, e_ll_z_grammar_trait);
+user_grammar2!(e_lr_z_grammar, ELrZGrammar, ELrZGrammarTrait, e_lr_z_grammar_trait);
 
 #[derive(Debug, Clone, PartialEq)]
 struct Leaf { ty: u16, start: usize, end: usize, text: String, line: u32, col: u32 }
 #[derive(Default)]
-struct Collector { leaves: Vec<Leaf>, depth: i64, min_depth: i64 }
+struct Collector { leaves: Vec<Leaf>, depth: i64, min_depth: i64, shape: Vec<String> }
 impl<'t> TreeConstruct<'t> for Collector {
     type Error = ParolError;
     type Tree = ();
-    fn open_non_terminal(&mut self, _n: &'static str, _s: Option<usize>) -> Result<(), ParolError> { self.depth += 1; Ok(()) }
-    fn close_non_terminal(&mut self) -> Result<(), ParolError> { self.depth -= 1; self.min_depth = self.min_depth.min(self.depth); Ok(()) }
+    fn open_non_terminal(&mut self, n: &'static str, _s: Option<usize>) -> Result<(), ParolError> { self.depth += 1; self.shape.push(format!("<{}", n)); Ok(()) }
+    fn close_non_terminal(&mut self) -> Result<(), ParolError> { self.depth -= 1; self.min_depth = self.min_depth.min(self.depth); self.shape.push(">".to_string()); Ok(()) }
     fn add_token(&mut self, t: &Token<'t>) -> Result<(), ParolError> {
         self.leaves.push(Leaf { ty: t.token_type, start: t.location.start as usize, end: t.location.end as usize, text: t.text().to_string(),
                                 line: t.location.start_line, col: t.location.start_column });
+        // structure: significant leaves only (where trivia is attached is not part of the derivation)
+        if !((t.token_type > 0 && t.token_type < 5) || t.token_type == u16::MAX - 1 || t.is_effectively_skip_token()) { self.shape.push(format!("{}", t.location.start)); }
         Ok(())
     }
     fn build(self) -> Result<(), ParolError> { Ok(()) }
@@ -174,7 +188,7 @@ fn line_col(s: &str, off: usize) -> (u32, u32) {
     (line, col)
 }
 
-struct Run { ok: bool, leaves: Vec<Leaf>, events: Vec<Ev>, panicked: bool, depth_err: bool }
+struct Run { ok: bool, leaves: Vec<Leaf>, events: Vec<Ev>, panicked: bool, depth_err: bool, shape: Vec<String> }
 /// variant: 0 = LL(k), 1 = LALR(1), 2 = LL(k) with trim_parse_tree, 3 = LALR(1) with trim_parse_tree, 4 = LL(k) with recovery disabled
 const VARIANTS: [&str; 5] = ["LL(k)", "LALR(1)", "LL(k) trimmed", "LALR(1) trimmed", "LL(k) recovery disabled"];
 fn run(v: usize, input: &str) -> Run {
@@ -182,19 +196,19 @@ fn run(v: usize, input: &str) -> Run {
     let r = std::panic::catch_unwind(move || {
         let mut col = Collector::default();
         match v {
-            1 => { let mut g = lr_grammar::LrGrammar::default(); let r = lr_parser::parse_into(&inp, &mut col, "x", &mut g); (r.is_ok(), col.leaves, g.events) }
-            2 => { let mut g = ll_t_grammar::LlTGrammar::default(); let r = ll_t_parser::parse_into(&inp, &mut col, "x", &mut g); (r.is_ok(), col.leaves, g.events) }
-            3 => { let mut g = lr_t_grammar::LrTGrammar::default(); let r = lr_t_parser::parse_into(&inp, &mut col, "x", &mut g); (r.is_ok(), col.leaves, g.events) }
-            4 => { let mut g = ll_n_grammar::LlNGrammar::default(); let r = ll_n_parser::parse_into(&inp, &mut col, "x", &mut g); (r.is_ok(), col.leaves, g.events) }
-            _ => { let mut g = ll_grammar::LlGrammar::default(); let r = ll_parser::parse_into(&inp, &mut col, "x", &mut g); (r.is_ok(), col.leaves, g.events) }
+            1 => { let mut g = lr_grammar::LrGrammar::default(); let r = lr_parser::parse_into(&inp, &mut col, "x", &mut g); (r.is_ok(), col.leaves, g.events, col.shape) }
+            2 => { let mut g = ll_t_grammar::LlTGrammar::default(); let r = ll_t_parser::parse_into(&inp, &mut col, "x", &mut g); (r.is_ok(), col.leaves, g.events, col.shape) }
+            3 => { let mut g = lr_t_grammar::LrTGrammar::default(); let r = lr_t_parser::parse_into(&inp, &mut col, "x", &mut g); (r.is_ok(), col.leaves, g.events, col.shape) }
+            4 => { let mut g = ll_n_grammar::LlNGrammar::default(); let r = ll_n_parser::parse_into(&inp, &mut col, "x", &mut g); (r.is_ok(), col.leaves, g.events, col.shape) }
+            _ => { let mut g = ll_grammar::LlGrammar::default(); let r = ll_parser::parse_into(&inp, &mut col, "x", &mut g); (r.is_ok(), col.leaves, g.events, col.shape) }
         }
     });
-    match r { Ok((ok, leaves, events)) => Run { ok, leaves, events, panicked: false, depth_err: false }, Err(_) => Run { ok: false, leaves: vec![], events: vec![], panicked: true, depth_err: false } }
+    match r { Ok((ok, leaves, events, shape)) => Run { ok, leaves, events, panicked: false, depth_err: false, shape }, Err(_) => Run { ok: false, leaves: vec![], events: vec![], panicked: true, depth_err: false, shape: vec![] } }
 }
 
-const CLAUSES: [(&str, &str); 12] = [
-    ("C02 C03 C08 C13 C14 C16 C17 C19 C20", "parse does not panic"),
-    ("C03 C08 C13 C14 C16 C17 C20", "acceptance: success iff the input is a sentence of the toy grammar (independent reference recognizer; skipped tokens do not matter)"),
+const CLAUSES: [(&str, &str); 13] = [
+    ("C01 C02 C03 C08 C13 C14 C16 C17 C19 C20", "parse does not panic"),
+    ("C01 C03 C08 C13 C14 C16 C17 C20", "acceptance: success iff the input is a sentence of the toy grammar (independent reference recognizer; skipped tokens do not matter)"),
     ("C03 C13 C14 C16", "tree leaves are contiguous, in order, start at 0 and end at the input length"),
     ("C13 C14 C16", "leaf texts equal the input slices of their byte ranges (texts concatenate to the input)"),
     ("C13 C14 C16", "leaf token types and ranges equal the reference tokenization (significant, skipped, comments, unmatched gaps)"),
@@ -205,6 +219,7 @@ const CLAUSES: [(&str, &str); 12] = [
     ("C19", "parse returns: no single parse runs longer than the watchdog limit (30 s)"),
     ("C19 C20", "depth limit: a limit that is not reached changes nothing; an exceeded limit yields the MaxParsingDepthExceeded error value (or the unlimited outcome), never a panic or another result"),
     ("C02 C03", "every production application triggers exactly one semantic action, in post-order of the derivation tree (children before their production, left to right)"),
+    ("C02", "the LL(k) parse tree is the derivation tree of the transformed grammar: every production application is one inner node whose children are that production's right-hand side in order (empty productions included)"),
 ];
 /// independent recognizer of Start: { Item }; Item: a | b | # | a ; | q r s t | q u
 fn is_item_list(t: &[u16]) -> bool {
@@ -274,7 +289,7 @@ fn check_events(r: &Run, want: &[RTok]) -> Option<usize> {
 }
 
 // ================= second toy grammar: nested expressions (LL(1) / LALR(1), full tree and trimmed) =================
-const G2_VARIANTS: [&str; 8] = ["expr LL(k)", "expr LALR(1)", "expr LL(k) trimmed", "expr LALR(1) trimmed", "expr LL(k) depth limit 1000", "expr LALR(1) depth limit 1000", "expr LL(k) depth limit 3", "expr LALR(1) depth limit 4"];
+const G2_VARIANTS: [&str; 12] = ["expr LL(k)", "expr LALR(1)", "expr LL(k) trimmed", "expr LALR(1) trimmed", "expr LL(k) depth limit 1000", "expr LALR(1) depth limit 1000", "expr LL(k) depth limit 3", "expr LALR(1) depth limit 4", "expr LL(k) depth limit 3 trimmed", "expr LALR(1) depth limit 4 trimmed", "expr LL(k) depth limit 0", "expr LALR(1) depth limit 0"];
 const NUM: u16 = 5; const PLUS: u16 = 6; const OPEN: u16 = 7; const CLOSE: u16 = 8; const ERR2: u16 = 9;
 fn reference_tokens2(s: &str) -> Vec<RTok> {
     let b = s.as_bytes();
@@ -334,7 +349,7 @@ fn run2(v: usize, input: &str) -> Run {
     let inp = input.to_string();
     let r = std::panic::catch_unwind(move || {
         let mut col = Collector::default();
-        macro_rules! go { ($g:ident, $ty:ident, $p:ident) => {{ let mut g = $g::$ty::default(); let r = $p::parse_into(&inp, &mut col, "x", &mut g); (r.is_ok(), is_depth_err(&r), col.leaves, g.events) }} }
+        macro_rules! go { ($g:ident, $ty:ident, $p:ident) => {{ let mut g = $g::$ty::default(); let r = $p::parse_into(&inp, &mut col, "x", &mut g); (r.is_ok(), is_depth_err(&r), col.leaves, g.events, col.shape) }} }
         match v {
             1 => go!(e_lr_grammar, ELrGrammar, e_lr_parser),
             2 => go!(e_ll_t_grammar, ELlTGrammar, e_ll_t_parser),
@@ -343,10 +358,14 @@ fn run2(v: usize, input: &str) -> Run {
             5 => go!(e_lr_d_grammar, ELrDGrammar, e_lr_d_parser),
             6 => go!(e_ll_s_grammar, ELlSGrammar, e_ll_s_parser),
             7 => go!(e_lr_s_grammar, ELrSGrammar, e_lr_s_parser),
+            8 => go!(e_ll_ts_grammar, ELlTsGrammar, e_ll_ts_parser),
+            9 => go!(e_lr_ts_grammar, ELrTsGrammar, e_lr_ts_parser),
+            10 => go!(e_ll_z_grammar, ELlZGrammar, e_ll_z_parser),
+            11 => go!(e_lr_z_grammar, ELrZGrammar, e_lr_z_parser),
             _ => go!(e_ll_grammar, ELlGrammar, e_ll_parser),
         }
     });
-    match r { Ok((ok, depth_err, leaves, events)) => Run { ok, leaves, events, panicked: false, depth_err }, Err(_) => Run { ok: false, leaves: vec![], events: vec![], panicked: true, depth_err: false } }
+    match r { Ok((ok, depth_err, leaves, events, shape)) => Run { ok, leaves, events, panicked: false, depth_err, shape }, Err(_) => Run { ok: false, leaves: vec![], events: vec![], panicked: true, depth_err: false, shape: vec![] } }
 }
 /// same clause indices as check()
 fn check2(v: usize, input: &str) -> Option<usize> {
@@ -355,16 +374,24 @@ fn check2(v: usize, input: &str) -> Option<usize> {
     if r.panicked { return Some(0); }
     let sigs: Vec<u16> = want.iter().filter(|t| !t.skip).map(|t| t.ty).collect();
     let expect_ok = !want.iter().any(|t| t.ty == ERR2) && is_expr(&sigs);
-    if v == 6 {
-        // LL(k) with depth limit 3: a sentence whose production depth stays within the limit parses as without a limit;
+    if v == 10 {
+        // LL(k) with depth limit 0: the very first production already exceeds the limit - every input yields the depth-limit error
+        return if r.depth_err && !r.ok { None } else { Some(10) };
+    }
+    if v == 11 {
+        // LALR(1) with depth limit 0: the state stack (one entry) exceeds the limit at once
+        return if r.depth_err && !r.ok { None } else { Some(10) };
+    }
+    if v == 6 || v == 8 {
+        // LL(k) with depth limit 3 (full tree / trimmed): a sentence whose production depth stays within the limit parses as without a limit;
         // a deeper sentence yields exactly the depth-limit error; a non-sentence yields some error
         if expect_ok {
             let deep = ll_depth(&sigs) > 3;
             if deep != r.depth_err || r.ok == deep { return Some(10); }
             if deep { return None; }
         } else { if r.ok { return Some(10); } return None; }
-    } else if v == 7 {
-        // LALR(1) with depth limit 4 (the LR parser limits its state stack): the unlimited outcome or the depth-limit error
+    } else if v == 7 || v == 9 {
+        // LALR(1) with depth limit 4 (full tree / trimmed) (the LR parser limits its state stack): the unlimited outcome or the depth-limit error
         if r.depth_err { return None; }
         if r.ok != expect_ok { return Some(10); }
         if !r.ok { return None; }
@@ -378,7 +405,7 @@ fn check2(v: usize, input: &str) -> Option<usize> {
     let want_acts: Vec<(char, usize)> = want.iter().filter(|t| !t.skip).map(|t| (kind_of(t.ty), t.start)).collect();
     let cms: Vec<(usize, usize)> = r.events.iter().filter(|e| e.kind == 'c').map(|e| (e.start, e.end)).collect();
     let want_cms: Vec<(usize, usize)> = want.iter().filter(|t| t.ty == LC || t.ty == BC).map(|t| (t.start, t.end)).collect();
-    if v == 2 || v == 3 {
+    if v == 2 || v == 3 || v == 8 || v == 9 {
         if !r.leaves.is_empty() { return Some(4); }
     } else {
         let mut pos = 0;
@@ -401,6 +428,29 @@ fn check2(v: usize, input: &str) -> Option<usize> {
     po_e(&sigs, 0, &mut post);
     let got: Vec<char> = r.events.iter().filter(|e| e.kind != 'c').map(|e| e.kind).collect();
     if got != post { return Some(11); }
+    // shape of the LL tree (untrimmed LL variants): E: T EList; EList: Plus T EList | ; T: Num | Open E Close; wrappers hold one token
+    if v % 2 == 0 && v != 2 && v != 8 {
+        fn pos_of(want: &[RTok], k: usize) -> String { format!("{}", want.iter().filter(|t| !t.skip).nth(k).unwrap().start) }
+        fn sh_e(t: &[u16], w: &[RTok], mut p: usize, out: &mut Vec<String>) -> usize {
+            out.push("<E".into()); p = sh_t(t, w, p, out); p = sh_list(t, w, p, out); out.push(">".into()); p
+        }
+        fn sh_list(t: &[u16], w: &[RTok], mut p: usize, out: &mut Vec<String>) -> usize {
+            out.push("<EList".into());
+            if p < t.len() && t[p] == PLUS { out.push("<Plus".into()); out.push(pos_of(w, p)); out.push(">".into()); p = sh_t(t, w, p + 1, out); p = sh_list(t, w, p, out); }
+            out.push(">".into()); p
+        }
+        fn sh_t(t: &[u16], w: &[RTok], p: usize, out: &mut Vec<String>) -> usize {
+            out.push("<T".into());
+            let q = if t[p] == NUM { out.push("<Num".into()); out.push(pos_of(w, p)); out.push(">".into()); p + 1 }
+                    else { out.push("<Open".into()); out.push(pos_of(w, p)); out.push(">".into()); let q = sh_e(t, w, p + 1, out);
+                           out.push("<Close".into()); out.push(pos_of(w, q)); out.push(">".into()); q + 1 };
+            out.push(">".into()); q
+        }
+        let mut shape = vec!["<".to_string()];
+        sh_e(&sigs, &want, 0, &mut shape);
+        shape.push(">".to_string());
+        if r.shape != shape { return Some(12); }
+    }
     None
 }
 const PIECES2: [&str; 9] = ["n", "+", "(", ")", " ", "\n", "//c\n", "/*c*/", "?"];
@@ -412,7 +462,7 @@ static CURRENT: std::sync::Mutex<String> = std::sync::Mutex::new(String::new());
 /// properties that speak about one parser kind only look at that kind's variants (C02, C08: LL(k); C03: LALR(1))
 fn variant_relevant(prop: &str, grammar: usize, v: usize) -> bool {
     let lr = if grammar == 1 { v == 1 || v == 3 } else { v % 2 == 1 };
-    match prop { "C02" | "C08" => !lr, "C03" => lr, _ => true }
+    match prop { "C01" | "C02" | "C08" => !lr, "C03" => lr, _ => true }
 }
 fn start_watchdog() {
     std::thread::spawn(|| {
